@@ -20,6 +20,6 @@ def run(prog, rep, tier):
     rep.not_decided = ("sets with more runs than the breakpoint lists realise (4+), the textual rendering of a set, and the conversion of constants "
                        "to addresses (addressify: warnings for negative / non-arithmetic constants).")
     apply(rep, "H7", "set algebra and canonical form of coverage and of every address-set word (source evaluation on the endpoint-order domain)", r_aset.h7(prog, tier), 20)
-    apply(rep, "H1", "ranges are written only inside coverage", r_aset.h1(prog), 15)
+    apply(rep, "H1", "ranges are written only inside coverage", r_aset.h1(prog), 8)
     apply(rep, "H3", "words are registered with their documented overload classes", r_aset.h3(prog), 12)
     maybe_mutants("C16", rep, tier)
